@@ -277,6 +277,44 @@ pub fn emit_twice(_args: &[String]) -> Result<Value> {
             Err(_) => failures.push(json!({"module": case, "panic": true})),
         }
     }
+    // edits BETWEEN emits: what a later emit writes depends on the module as it is then, not on anything remembered from an earlier emit
+    for case in ["body-edited-after-an-emit", "debug-named-section-added-through-the-api"] {
+        checked += 1;
+        let r = std::panic::catch_unwind(|| -> Result<Option<String>> {
+            let mut cfg = walrus::ModuleConfig::new();
+            cfg.generate_producers_section(false);
+            let wasm = wat::parse_str(r#"(module (func $small (export "small") (nop)) (func $mid (export "mid") (drop (i32.const 1)) (drop (i32.const 2)))
+                (func $big (export "big") (drop (i32.const 1)) (drop (i32.const 2)) (drop (i32.const 3)) (drop (i32.const 4))))"#)?;
+            let mut m = cfg.parse(&wasm)?;
+            let first = m.emit_wasm();
+            if case == "body-edited-after-an-emit" {
+                // make the smallest function the largest, through block_mut (not through the builder)
+                let small = m.exports.get_func("small")?;
+                let f = m.funcs.get_mut(small).kind.unwrap_local_mut();
+                let entry = f.entry_block();
+                for k in 0..12 {
+                    f.block_mut(entry).instrs.push((walrus::ir::Instr::Const(walrus::ir::Const { value: walrus::ir::Value::I32(k) }), Default::default()));
+                    f.block_mut(entry).instrs.push((walrus::ir::Instr::Drop(walrus::ir::Drop {}), Default::default()));
+                }
+            } else {
+                m.customs.add(walrus::RawCustomSection { name: ".debug_custom".into(), data: vec![1, 2, 3] });
+                m.customs.add(walrus::RawCustomSection { name: "plain".into(), data: vec![4] });
+            }
+            let a = m.emit_wasm();
+            let b = m.emit_wasm();
+            if a != b { return Ok(Some("two emits of the edited module differ".into())); }
+            if case == "body-edited-after-an-emit" && a == first { return Ok(Some("the edit did not reach the output".into())); }
+            let d = cfg.parse(&a)?.emit_wasm();
+            if d != a { return Ok(Some(format!("after an edit that follows an emit, re-parsing the output and emitting again changes it ({} vs {} bytes)", a.len(), d.len()))); }
+            Ok(None)
+        });
+        match r {
+            Ok(Ok(None)) => {}
+            Ok(Ok(Some(w))) => failures.push(json!({"module": case, "what": w})),
+            Ok(Err(e)) => failures.push(json!({"module": case, "error": format!("{e:#}")})),
+            Err(_) => failures.push(json!({"module": case, "panic": true})),
+        }
+    }
     failures.truncate(8);
     Ok(json!({"violated": !failures.is_empty(), "modules_checked": checked, "failures": failures}))
 }
